@@ -90,4 +90,29 @@ theorem afterFirst_prefix (pat : Bytes) (hpat : pat ≠ []) : ∀ (b s : Bytes),
           refine ⟨s', by unfold afterFirst; simp [h3, e1], e2, ?_⟩
           simp; omega
 
+theorem ddsSeparator_ne_nil : ddsSeparator ≠ [] := by decide
+
+/-- the array path on a prefix of a response it decodes: the same value, or an error -/
+theorem bodyPath_prefix (d : Dec α) (resp p : Bytes) (a : α) (h : bodyPath d resp = .ok a) (hp : p <+: resp) :
+    bodyPath d p = .ok a ∨ bodyPath d p = .error .noData ∨ bodyPath d p = .error .eof := by
+  unfold bodyPath splitData at h ⊢
+  cases hs : afterFirst ddsSeparator resp with
+  | none => rw [hs] at h; cases h
+  | some s =>
+    rw [hs] at h
+    simp only [] at h
+    cases hr : d.runBR s with
+    | error e => rw [hr] at h; cases h
+    | ok x =>
+      rw [hr] at h
+      simp only [fstOf] at h
+      cases h
+      rcases afterFirst_prefix ddsSeparator ddsSeparator_ne_nil resp s hs p hp with hn | ⟨s', e1, e2, _⟩
+      · right; left; rw [hn]
+      · rw [e1]
+        simp only []
+        rcases runBR_prefix d s s' x.1 x.2 hr e2 with ⟨_, h2⟩ | ⟨_, h2⟩
+        · left; rw [h2]; rfl
+        · right; right; rw [h2]; rfl
+
 end Pydap.Stream
